@@ -240,7 +240,10 @@ def run(tier, seed, replay):
                  "<wxs module=\"m\" src=\"c.wxs.wxs\"/>{{m.x}}",
                  # children that print as nothing; static braces that only a comment keeps apart
                  "<div>{{ \"\" }}</div>", "<div><!-- c -->{{ '' }}<!-- d --></div>x", "<template name=\"a\"><!-- c --></template><template is=\"a\"/>",
-                 "<v>a{<!---->{x}}</v>", "{<!-- c -->{ a }}", "<v>{{ a }}{<!-- c -->{</v>"]
+                 "<v>a{<!---->{x}}</v>", "{<!-- c -->{ a }}", "<v>{{ a }}{<!-- c -->{</v>",
+                 # an empty string literal as the whole value of the attributes with a place of their own
+                 "<v id=\"{{ '' }}\"/>", "<v bind:tap=\"{{ '' }}\"/>", "<v wx:if=\"{{ '' }}\">a</v>", "<v class=\"{{ '' }}\" style=\"{{ '' }}\" slot=\"{{ '' }}\"/>",
+                 "<slot name=\"{{ '' }}\"/>", "<template is=\"{{ '' }}\"/>", "<v wx:for=\"{{ '' }}\">b</v>", "<v a=\"{{ '' }}\" data:k=\"{{ '' }}\" mark:m=\"{{ '' }}\"/>"]
         snippets.extend(extra)
     # ---- B: snippets, original vs printed
     if snippets:
